@@ -7,8 +7,9 @@
    exponent e: |x| = 0.ds * 10^e), CNaN, CInf.  The step f64 -> shortest digits
    (ryu) and the f64 parser are outside the model (validated by the correspondence
    check, not proved): hence "proof (partial)". *)
-From Coq Require Import List ZArith NArith String QArith.
-From NV Require Import NumFmt.Model NumFmt.Proofs NumFmt.ProofsF.
+From Coq Require Import List ZArith NArith String Ascii QArith.
+From NV Require Import NumFmt.Model NumFmt.Proofs NumFmt.ProofsF NumFmt.LexTie.
+From NV Require Import Syntax.Token Syntax.Lexer.
 Import ListNotations.
 
 (* Integers, any separator whose first character is neither a digit nor '-', any
@@ -53,6 +54,31 @@ Theorem C14_float : forall o neg ds e, wfd ds -> ds <> [] ->
            (e - Z.of_nat (Nat.min (List.length ds) limit))%Z).
 Proof. exact float_correct_sep. Qed.
 Print Assumptions C14_float.
+
+(* "Is a valid numeric literal", against the lexer model of the syntax area (Syntax/Lexer.v, the
+   model that C10 ties to the real tokenizer; any Unicode identifier classes in which digits are
+   not identifier starts): the displayed text of a literal is an optional '-' followed by a text
+   that scan_single_token reads as exactly ONE Number token with that very lexeme and nothing
+   left over; the same for the digits of an integer. *)
+Theorem C14_literal_is_number_token : forall (xid_start xid_continue : N -> bool),
+  (forall c, is_ascii_digit c = true -> xid_start c = false) ->
+  forall l d, wf_lit l ->
+    show_lit true l
+    = ((if l_neg l then String "-"%char EmptyString else EmptyString) ++ show_lit true (unsigned l))%string /\
+    scan_single_token xid_start xid_continue d (codes (show_lit true (unsigned l)))
+    = LOk (Some (TNumber (codes (show_lit true (unsigned l)))), [], d).
+Proof.
+  intros xs xc H l d W. split; [apply show_lit_sign|apply (literal_is_one_number_token xs xc H); assumption].
+Qed.
+Print Assumptions C14_literal_is_number_token.
+
+Theorem C14_integer_is_number_token : forall (xid_start xid_continue : N -> bool),
+  (forall c, is_ascii_digit c = true -> xid_start c = false) ->
+  forall (n : N) d,
+    scan_single_token xid_start xid_continue d (codes (show_digits (dec_digits n)))
+    = LOk (Some (TNumber (codes (show_digits (dec_digits n)))), [], d).
+Proof. intros xs xc H. exact (integer_is_one_number_token xs xc H). Qed.
+Print Assumptions C14_integer_is_number_token.
 
 (* `rounded` is a correct rounding: W * 10^m is the multiple of 10^m nearest to the
    digit value (ties upward), m = number of dropped digits. *)
